@@ -69,7 +69,17 @@ func (o *OperatorPartition) ExclusivelyOwnsTable(uri string, startKey []byte, en
 		}
 	}
 
-	return !neighborNeedsTable, err
+	if neighborNeedsTable {
+		return false, nil
+	}
+
+	// A neighbor that couldn't be asked may still need the table, so ownership
+	// isn't exclusive unless every neighbor answered.
+	if err != nil {
+		return false, err
+	}
+
+	return true, nil
 }
 
 var _ kv.DataOwnership = &OperatorPartition{}
